@@ -366,6 +366,25 @@ def d4(chk, prog):
             ok = isinstance(out, list) and len(out) == 3 and out[0] == "DEFAULT" and same(out[1], vals[1]) and out[2] == want3
             tb.cell(ok, dict(element=repr(elem), summary_func=func, got=repr(out), want=["DEFAULT", repr(vals[1]), repr(want3)]))
     tb.done("into_ranges does not give default / the value / the type-appropriate summary")
+    # the default summaries themselves
+    tbc = Table(chk, "summary-dispatch", "default combiners on literal Series: join_strings = distinct names in first-seen order, first_of / last_of", "skgenome/combiners.py", "skgenome.combiners")
+    for vals, want in ((["A", "B", "A"], "A,B"), (["A", "A", "B"], "A,B"), (["B", "A", "B", "C", "A"], "B,A,C"), (["A"], "A")):
+        W.reset()
+        it = Interp(prog)
+        ser = Vec(list(vals), aligned=True)
+        ser.exact = True
+        out = tbc.guard(lambda: ("v", it.run("skgenome.combiners.join_strings", [ser])), f"join_strings{vals}")
+        if out is not None:
+            tbc.cell(out[1] == want, dict(combiner="join_strings", values=vals, got=repr(out[1]), want=want))
+    for name, want in (("first_of", "A"), ("last_of", "C")):
+        W.reset()
+        it = Interp(prog)
+        ser = Vec(["A", "B", "C"], aligned=True)
+        ser.exact = True
+        out = tbc.guard(lambda: ("v", it.run(f"skgenome.combiners.{name}", [ser])), name)
+        if out is not None:
+            tbc.cell(out[1] == want, dict(combiner=name, got=repr(out[1]), want=want))
+    tbc.done("a default summary of into_ranges / merge is not what its name says (join_strings: each distinct string once, in order)")
 
 
 def d5(chk, prog):
